@@ -84,7 +84,12 @@ def entryBytes (flag id : Nat) (key : Bytes) : Bytes :=
 def readEntry (f : Bytes) (pos : Nat) : Option Entry :=
   let flag := byteAt f pos
   if flag = insertFlag then
-    (readKey f (pos + entryHdrSize)).map fun k => ⟨flag, be64 f (pos + 1), k, pos⟩
+    match readKey f (pos + entryHdrSize) with
+    | none => none
+    | some k =>
+      -- fixes/C13-torn-entry-empty-key.patch: an insert entry with an empty key is a torn
+      -- write (flag set, id possibly incomplete, key never reached the disk): end of data
+      if k.length ≤ 1 then none else some ⟨flag, be64 f (pos + 1), k, pos⟩
   else if flag = tombstoneFlag then some ⟨flag, be64 f (pos + 1), [], pos⟩
   else none
 
